@@ -26,6 +26,12 @@ checks = {
  "C06": dict(level="exploration", ref="DESIGN.md 3 C06",
    text="Seeded search over tree shapes, kill targets, repeated/concurrent/poison kills, kills racing spawns and watch registrations; event-order and exactly-once oracles over the complete recorded history at quiescence, path release, stale subscriptions and jobs checked after termination.",
    technique="deterministic simulation: seeded scheduler + fake clock, event-order and exactly-once oracles over the recorded history"),
+ "C08": dict(level="fault_enumeration", ref="DESIGN.md 3 C08",
+   text="The failure dimension is enumerated completely within its bounds (576 cells: decision x strategy x failure site x panic/Failed x tree shape, plus failures while stopping), every cell visited repeatedly, each visit under a fresh seeded schedule; recording decision makers and the complete per-actor traces decide whether exactly the directive's targets were restarted / stopped / resumed and everybody else was left alone.",
+   technique="deterministic simulation with enumerated fault injection (failure matrix) and sampled schedules"),
+ "C09": dict(level="fault_enumeration", ref="DESIGN.md 3 C09",
+   text="The same enumerated failure matrix with a burst queued around the failing message, plus zombie (failing restart hooks), nested concurrent failures and failures while stopping; 'stuck' is decided, not approximated: at quiescence an accessor lists paused or half-stopped contexts, and numbered probes sent afterwards must be processed by every living actor and dead-lettered for every stopped one.",
+   technique="deterministic simulation with enumerated fault injection, quiescence oracle + probe traffic"),
  "C19": dict(level="exploration", ref="DESIGN.md 3 C19",
    text="Concurrent Subscribe/Unsubscribe/UnsubscribeAll/Publish histories with subscriber kills and restarts, stamped with the simulator's global event sequence number and checked for linearizability against a set model with porcupine; plus duplicate, order, post-termination and stale-table-entry oracles.",
    technique="deterministic simulation: seeded scheduler, recorded history checked with porcupine against a sequential model"),
